@@ -27,3 +27,14 @@ package fs
 //@   requires @inv f.tmpdir == "" || isauxdir(f.tmpdir)
 //@   modifies fresh, field f.tmpdir
 //@   ensures isauxdir(result)
+
+// C09: stale-temp cleanup removes only what the walk of the temp directory
+// handed it (assumed: those are paths below the temp directory, never object
+// paths) - it never removes or touches a path in the object store.
+//@ func (*Filesystem).cleanupTmp$1
+//@   props C09
+//@   requires @inv info != nil && !isobj(path_join(parentDir, fi_name(info)))
+//@   forbid os.Remove
+//@   forbid os.Rename
+//@   at call os.RemoveAll:1 assert arg0__ == path_join(parentDir, fi_name(info))
+//@   at call os.RemoveAll:2 assert arg0__ == path_join(parentDir, fi_name(info))
